@@ -281,7 +281,8 @@ static std::string doTrain(std::vector<std::string> const& t){
 				if(s < C - slack * P) viol = std::max(viol, up); else viol = std::max(viol, up - down);
 			}
 		}
-		os << " path=mc P=" << P << " kkt=" << g17(viol) << " obj=" << g17(obj) << " bias=";
+		os << " path=mc fam=" << ((type == McSvm::WW || type == McSvm::CS) ? "WWCS" : (type == McSvm::LLW || type == McSvm::ADM) ? "ADMLLW" : type == McSvm::MMR ? "MMR" : "ATMATS")
+		   << " stz=" << (sumToZero ? 1 : 0) << " simplex=" << (simplex ? 1 : 0) << " P=" << P << " kkt=" << g17(viol) << " obj=" << g17(obj) << " bias=";
 		for(std::size_t c = 0; c != classes; ++c) os << (c ? "," : "") << g17(b(c));
 		os << " alpha=";
 		{
